@@ -559,7 +559,7 @@ func (self *Engine) Run(warmOnly bool, startDay flap.EpochTime) error {
 
 		// Update verbose statistics and report as needed
 		self.updateVerboseStats(i,currentDay,dt,us)
-		if i % self.ModelParams.VerboseReportDayDelta == 0 {
+		if self.ModelParams.VerboseReportDayDelta > 0 && i % self.ModelParams.VerboseReportDayDelta == 0 {
 			flightPaths= reportFlightPaths(flightPaths,currentDay,self.ModelParams.WorkingFolder) 
 		}
 
